@@ -278,7 +278,7 @@ row_twin = row_frame
 row_frame_drop = row_frame
 fill_only_missing = column_has_present = row_frame
 next_days = next_seconds = is_last_row = row_frame
-labels_on_the_hour = label_seconds = index_min_seconds = index_max_seconds = index_is_empty = stamp = stamp_seconds = floor_days = row_frame
+wall_clock_seconds = labels_on_the_hour = label_seconds = index_min_seconds = index_max_seconds = index_is_empty = stamp = stamp_seconds = floor_days = row_frame
 recognise = sum_log = round_log = agg_bool_log = on_grid = agg_func = agg_rule = agg_contrib = row_series = median_of = set_inferred_freq = series_kind = series_val = series_member = row_frame
 
 
